@@ -75,14 +75,15 @@ def main():
     ap.add_argument('--seed', type=int, default=1)
     ap.add_argument('--file', default=os.path.join(VERIF, 'mutants', 'mutants.json'))
     ap.add_argument('-v', action='store_true')
+    ap.add_argument('-j', type=int, default=1, help='mutants processed concurrently')
+    ap.add_argument('--out', default=os.path.join(VERIF, 'mutants', 'RESULTS.json'))
     a = ap.parse_args()
     muts = json.load(open(a.file))
     if a.ids:
         muts = [m for m in muts if m['id'] in a.ids or any(m['id'].startswith(i) for i in a.ids)]
     implemented = [p for p in ALL if os.path.exists(os.path.join(VERIF, 'checks')) and any(
         f.startswith(p.lower() + '_') for f in os.listdir(os.path.join(VERIF, 'checks')))]
-    results = []
-    for m in muts:
+    def one(m):
         root = tempfile.mkdtemp(prefix='vmut_', dir='/tmp')
         try:
             shutil.rmtree(root)
@@ -93,21 +94,31 @@ def main():
                 rec['suite_passes'] = run_suite(root)
             checks = implemented if a.all_checks else [t for t in m['targets'] if t in implemented]
             rec['fired'], rec['quiet'], rec['error'] = [], [], []
+            rec['first'] = {}
             for pid in checks:
                 code, secs, first, tail = run_check(pid, root, a.tier, a.cases, a.seed)
                 key = {0: 'quiet', 1: 'fired'}.get(code, 'error')
                 rec[key].append(pid)
-                print('%-32s %s -> %-5s %5.1fs  %s' % (m['id'], pid, key, secs, first))
+                if key == 'fired':
+                    rec['first'][pid] = first[:200]
+                print('%-32s %s -> %-5s %5.1fs  %s' % (m['id'], pid, key, secs, first), flush=True)
                 if a.v or key == 'error':
                     print(tail)
             exp_quiet = m.get('preserving', False)
             rec['ok'] = (not rec['fired']) if exp_quiet else (
                 all(t in rec['fired'] for t in m['targets'] if t in checks) and
                 not any(t in rec['fired'] for t in m.get('quiet_in', [])))
-            results.append(rec)
+            return rec
         finally:
             shutil.rmtree(root, ignore_errors=True)
-    out = os.path.join(VERIF, 'mutants', 'RESULTS.json')
+
+    if a.j > 1:
+        from multiprocessing.pool import ThreadPool
+        with ThreadPool(a.j) as pool:
+            results = pool.map(one, muts, chunksize=1)
+    else:
+        results = [one(m) for m in muts]
+    out = a.out
     old = json.load(open(out)) if os.path.exists(out) else {}
     for r in results:
         key = r['id']
